@@ -15,7 +15,7 @@ PROPERTY = 'C12'
 RULE = ('cases = (numeric string column, transformer name): columns of numeric strings (negatives, zeros, exact fw thresholds, values just '
         'around them, huge 1e300, tiny, quoted numbers, empty strings = 0, integer counts, probabilities on a 0.01 grid, constant and '
         'two-valued columns, columns whose most frequent value covers exactly 80% / just below, NaN-producing shares at exactly 75%) x '
-        'every transformer of the minimal / default / fw-transformers presets, through FeatureTransformerGeneric.construct_new_features; '
+        'every transformer of the minimal / default / fw-transformers presets, through FeatureTransformerGeneric.construct_new_features and through core_ranking.enrich_with_transformations (the pipeline path); '
         'plus every ordered pair and triple of preset names (and repeated constructions in one process) for the union clause. distinct = '
         '(transformer name, column class, column hash); non-trivial = the column was emitted, or dropped by a rule clause other than '
         '"constant".')
@@ -24,7 +24,7 @@ ASSUMPTIONS = ['inputs parse to finite floats (NaN/inf literals are not fed)', '
                'for dropped candidates the keep rule is evaluated on the oracle column and borderline cases (decision flips when values closer than 1e-12 are merged, or +-0.0 both present) are skipped',
                'the asinh-style formula is not compared for x < -1e6 (catastrophic cancellation makes the naive formula itself rounding-dominated)']
 WARM = [{}]
-WARM_CODE = 'import outrank.feature_transformations.ranking_transformers'
+WARM_CODE = 'import outrank.core_ranking'
 
 NAN = float('nan')
 INF = float('inf')
@@ -250,6 +250,7 @@ def shard_columns(sh, part, parts):
     import outrank.feature_transformations.feature_transformer_vault as vault
     from outrank.feature_transformations.ranking_transformers import FeatureTransformerGeneric
     pipe.quiet()
+    cr = pipe.fresh_core_ranking()
     from collections import Counter
     counters = Counter()
     rng, nprng = sh.rng('cols', part), sh.nprng('cols', part)
@@ -268,12 +269,19 @@ def shard_columns(sh, part, parts):
             other = [str(v) for v in nprng.integers(0, 9, len(cells))]
             df = pd.DataFrame({'x': cells, 'other': other, 'label': ['a'] * len(cells)})
             snapshot = df.copy(deep=True)
-            ok, tr = sh.call('emitted-cell=named-formula', 'FeatureTransformerGeneric', FeatureTransformerGeneric, {'x'}, preset)
-            if not ok:
-                continue
-            ok, out = sh.call('emitted-cell=named-formula', 'construct_new_features', tr.construct_new_features, df)
-            if not ok:
-                continue
+            if t % 4 == 2:
+                # the path the pipeline takes: core_ranking.enrich_with_transformations(frame, numeric columns, logger, args)
+                ok, out = sh.call('emitted-cell=named-formula', 'enrich_with_transformations', cr.enrich_with_transformations, df, {'x'}, pipe.ListLogger(), pipe.make_args(transformers=preset))
+                sh.classes['via enrich_with_transformations'] += 1
+                if not ok:
+                    continue
+            else:
+                ok, tr = sh.call('emitted-cell=named-formula', 'FeatureTransformerGeneric', FeatureTransformerGeneric, {'x'}, preset)
+                if not ok:
+                    continue
+                ok, out = sh.call('emitted-cell=named-formula', 'construct_new_features', tr.construct_new_features, df)
+                if not ok:
+                    continue
             sh.check('emitted-only-if-rule', list(out.columns[:3]) == ['x', 'other', 'label'] and out[['x', 'other', 'label']].equals(snapshot), 'input-columns-changed',
                      lambda: {'columns': list(out.columns)[:8]})
             extra = [c for c in out.columns[3:] if not (c.startswith('x') and c[1:] in names)]
